@@ -1745,3 +1745,15 @@ M("c04-marker-group-seeded-unconditionally", ["C04"], {"C04": ["R04.7"]}, "backe
 
 # ---------------------------------------------------------------- F27
 REVERT("f27-revert-upload-listing-lookahead", ["C14"], {"C14": ["R14.8"]}, "0021-fix-a-multipart-upload-listing-is-truncated-while-un.patch")
+
+# ---------------------------------------------------------------- F28 / F29
+REVERT("f28-revert-prefix-directory-contained", ["C10"], {"C10": ["R10.10"]}, "0022-fix-an-fs-listing-prefix-with-.-or-.-segments-cannot.patch")
+REVERT("f29-revert-multi-bucket-name-validation", ["C10"], {"C10": ["R10.10"]}, "0023-fix-the-multi-bucket-fs-backend-treats-only-valid-bu.patch")
+
+M("c10-multi-forcedelete-skips-name-check", ["C10"], {"C10": ["R10.10"]}, "backend/s3afero/multi.go",
+  """func (db *MultiBucketBackend) ForceDeleteBucket(name string) error {
+	if err := gofakes3.ValidateBucketName(name); err != nil {
+		return gofakes3.BucketNotFound(name)
+	}
+""", """func (db *MultiBucketBackend) ForceDeleteBucket(name string) error {
+""")
